@@ -10,7 +10,7 @@ for d in sorted(os.listdir(os.path.join(V, 'seeded'))):
     if not os.path.isdir(p) or (only and d not in only):
         continue
     meta = json.load(open(os.path.join(p, 'meta.json')))
-    check = (meta.get('caught_by') or {}).get('check') or meta.get('breaks_property')
+    check = ((meta.get('caught_by') or {}).get('check') or meta.get('breaks_property')).split()[0]
     t0 = time.time()
     r = subprocess.run([os.path.join(V, 'tools', 'tryseed.sh'), os.path.join(p, 'patch.diff'), check, 'quick'], stdout=subprocess.PIPE, stderr=subprocess.STDOUT, text=True)
     rc = [l for l in r.stdout.split('\n') if l.startswith('EXIT')]
